@@ -283,6 +283,15 @@ class C10(Monitor):
         for v in spec.get("vehicles") or []:
             if v.get("home_base"):
                 owners[v["home_base"]].append(v["id"])
+        fl = spec.get("fleets") or {}
+        if fl:
+            for kind, coll, key in (("vehicle", s.vehicles, "vehicles"), ("station", s.stations, "stations"), ("base", s.bases, "bases")):
+                for eid, e in coll.items():
+                    want = {f for f, m in fl.items() if eid in (m.get(key) or [])}
+                    got = {m for m in e.membership.memberships if "_private_" not in m}
+                    ctx.count("c10_memberships_compared_with_the_fleets_file")
+                    if got != want:
+                        ctx.violate("C10", f"{kind}-membership-differs-from-fleets-file", f"{kind} {eid} is loaded with fleets {sorted(got)}, the fleets file lists it under {sorted(want)}", entity=eid)
         for bid, vids in owners.items():
             b = s.bases.get(bid)
             if b is None or len(vids) != 1:
